@@ -79,6 +79,7 @@ func init() { register("range", rangeEngine{}) }
 var hostClasses = [][]byte{
 	[]byte("host1"), []byte("123"), []byte("1e3"), []byte("0x10"), []byte("-0"), []byte("1.50"), []byte(" 7"), {},
 	{0}, {'a', 0, 'b'}, {0xff, 0xfe, 0xfd}, []byte(strings.Repeat("h", 255)), []byte("'; drop table leases4;--"), []byte("\"quoted\""), []byte("NULL"),
+	[]byte("2e-1"), []byte(".5"), []byte("1e999"), []byte("18446744073709551616"), []byte("-1.0e0"), []byte("nan"), []byte("Infinity"),
 }
 
 func genMac(rng *rand.Rand, idx int) []byte {
@@ -291,6 +292,15 @@ func (r *rangeRun) request(cl rangeClient, mt byte) []byte {
 			gi = r.m.End // (giaddr 0.0.0.0 would mean "not relayed")
 		}
 		p.Gi = [4]byte{byte(gi >> 24), byte(gi >> 16), byte(gi >> 8), byte(gi)}
+	}
+	if r.m != nil && mt == 3 && r.xid%5 == 2 {
+		// a REQUEST that carries a ciaddr of the range (a client that believes it holds that address: after a
+		// lost database, a moved client, a cloned disk image): most often the address of another client's lease
+		ci := r.m.Start + uint32(r.rng.Intn(r.m.N()))
+		if n := len(r.m.Bind); n > 0 && r.xid%10 != 7 {
+			ci = r.m.Start + uint32(r.rng.Intn(n))
+		}
+		p.Ci = [4]byte{byte(ci >> 24), byte(ci >> 16), byte(ci >> 8), byte(ci)}
 	}
 	if cl.HType != 0 {
 		p.HType = cl.HType
